@@ -548,6 +548,9 @@ def box(v: V, kind: Kind):
         raise Unsupported(f"box: {v.kind!r} as {kind!r}")
     if isinstance(kind, KObj):
         if isinstance(v, ObjV):
+            missing = [n for n in kind.fields if n not in v.fields]
+            if missing:
+                raise Unsupported(f"box: record {v.cls} lacks field(s) {missing} of {kind!r}")
             return kind.sort().constructor(0)(*[box(v.fields[n], fk) for n, fk in kind.fields.items()])
         raise Unsupported(f"box: {v.kind!r} as {kind!r}")
     if isinstance(kind, KUnion):
